@@ -18,6 +18,8 @@ for n in range(1, 21):
     a, b = m.group(1), m.group(2)
     used = sorted(d.split('-')[1] for d in os.listdir(seeded) if d.startswith(pid + '-') and len(d.split('-')[1]) == 1)
     free = [c for c in string.ascii_lowercase if c not in used]
+    if len(free) < 2:
+        print(pid, 'has no two free single-letter suffixes left; skipped'); continue
     na, nb = free[0], free[1]
     lines = []
     for d in sorted(os.listdir(seeded)):
